@@ -41,7 +41,14 @@ claim("C10", "reader/writer codec tables flattened through sub-codecs and compar
       "Decides: the three reader/writer pairs agree position by position and equal WIN_CERTIFICATE / EFI_TIME+WIN_CERTIFICATE; the body is dwLength-8 bytes and the GUID variant only re-parses consumed bytes (so exactly 16+dwLength are consumed); "
       "the body is emitted once; length arithmetic is guarded; no terminator on input; full-read primitives. Byte-exact round trips for all values are not decided.", "DESIGN.md §4 C10")
 
+claim("C17", "format-language evaluation of the GUID text, codec-table byte-order agreement for every binary.Read/Write of a GUID-bearing type, who-may-call rule for the text-order serialisers, cut-sets for field-wise equality and the terminator check",
+      "Decides: canonical 8-4-4-4-12 lower-case text over Data1..Data4; big-endian text/bytes pair; little-endian GUIDs in every encoded structure and no use of the text-order bytes for wire data; field-wise equality; "
+      "UTF-16LE transcoder with exactly one terminator, terminator check dominating success, terminator scan returning only bytes it read. Transcoding of surrogates and value-level losslessness are not decided.", "DESIGN.md §4 C17")
+claim("C18", "format-language evaluation of the boot entry names, byte-order flow of the boot number, node reader tables compared with the UEFI layouts, value-flow of the text rendering",
+      "Decides: names are Boot + exactly four upper-case hex digits of the little-endian uint16 and are looked up unchanged; load-option and device-path node readers equal the UEFI layouts; the description uses the aligned terminator scan; "
+      "the hard-drive text renders the right fields in order. Rendering and decoding for all values are not decided.", "DESIGN.md §4 C18")
+
 NA["C16"] = ("acceptance of third-party signatures depends on the bytes other tools emit at run time (attribute order/encoding "
              "chosen by OpenSSL/sbsign); the source holds no representation of them, so no structural condition beyond C04/C13 exists to check statically")
-for _i in ["C01","C03","C05","C06","C17","C18","C19"]:
+for _i in ["C01","C03","C05","C06","C19"]:
     NA.setdefault(_i, "rule set for this property not built yet in this round (see DESIGN.md Appendix C); no static verdict is claimed")
